@@ -62,6 +62,10 @@ pub struct C05 {
     /// over a 5-item input, each abandoned after `.2` items (>= 5: consumed completely)
     #[serde(default)]
     pub earlier: Option<(u16, u8, u8)>,
+    /// plain pipe only: consume with a consuming adaptor of the concrete type instead of next():
+    /// 1 = count(), 2 = last(), 3 = for_each()
+    #[serde(default)]
+    pub terminal: u8,
 }
 
 fn default_pool() -> u8 {
@@ -281,7 +285,7 @@ impl Scenario for C05 {
         } else {
             vec![]
         };
-        C05 { run_seed, mode: SMode::draw(&mut rng), n, w, shape, fn_delay, src_delay, stall, hinted, poll_after_end, closed_loop, skips, pool: *rng.pick(&[1u8, 2, 2, 3, 4, 8]), earlier: None }.with_history(&mut rng, tier)
+        C05 { run_seed, mode: SMode::draw(&mut rng), n, w, shape, fn_delay, src_delay, stall, hinted, poll_after_end, closed_loop, skips, pool: *rng.pick(&[1u8, 2, 2, 3, 4, 8]), earlier: None, terminal: 0 }.with_history(&mut rng, tier)
     }
 
     fn run_seed(&self) -> u64 {
@@ -342,6 +346,11 @@ impl Scenario for C05 {
         if self.closed_loop.is_some() {
             let mut c = self.clone();
             c.closed_loop = None;
+            v.push(c);
+        }
+        if self.terminal != 0 {
+            let mut c = self.clone();
+            c.terminal = 0;
             v.push(c);
         }
         if let Some((count, w, take)) = self.earlier {
@@ -430,6 +439,23 @@ impl Scenario for C05 {
                 hinted: sc.hinted,
                 gate: sc.closed_loop.map(|w| (seen.clone(), w)),
             };
+            if sc.terminal != 0 && sc.shape == Shape::Pipe {
+                // the concrete type: an override of count / last / fold on it is what runs
+                let p = src.pipe(f, sc.w);
+                let vals: Vec<u64> = match sc.terminal {
+                    1 => vec![p.count() as u64],
+                    2 => p.last().into_iter().collect(),
+                    _ => {
+                        let mut v = vec![];
+                        p.for_each(|x| v.push(x));
+                        v
+                    }
+                };
+                rt::log(Kind::RecvEnd, vals.len() as u64, 0);
+                *res2.lock().unwrap() = vals;
+                rt::wait_threads_exit();
+                return;
+            }
             let mut it: Box<dyn Iterator<Item = u64>> = match sc.shape {
                 Shape::Pipe => Box::new(src.pipe(f, sc.w)),
                 Shape::PipeBuffered(b) => Box::new(src.pipe(f, sc.w).buffered(b)),
@@ -532,6 +558,9 @@ impl C05 {
         } else {
             None
         };
+        if self.shape == Shape::Pipe && self.skips.is_empty() && self.closed_loop.is_none() && rng.chance(0.06) {
+            self.terminal = rng.range(1, 4) as u8;
+        }
         self
     }
 
@@ -587,6 +616,14 @@ impl C05 {
             }
             exp = sel;
             stats.probe("runs_with_positional_consumption_nth", 1);
+        }
+        if self.terminal != 0 && self.shape == Shape::Pipe {
+            exp = match self.terminal {
+                1 => vec![exp.len() as u64],
+                2 => exp.last().copied().into_iter().collect(),
+                _ => exp,
+            };
+            stats.probe("runs_consumed_with_count_last_or_for_each", 1);
         }
         if got != exp {
             // classify: lost / duplicated / reordered / wrong value
